@@ -15,7 +15,7 @@ pub const SENDERS: [&str; 12] = [
     "airdrop",
 ];
 
-pub const WORLDS: [&str; 6] = ["fresh", "evolved", "transferred", "abandoned", "pending", "repointed"];
+pub const WORLDS: [&str; 7] = ["fresh", "evolved", "transferred", "abandoned", "pending", "repointed", "noreg"];
 
 const SETUP: &[&str] = &[
     "reset 100",
@@ -185,9 +185,16 @@ const CELLS: &[(&str, bool)] = &[
 fn replay<A: Write, B: Write>(em: &mut Emitter<A, B>, world: &str, cell_note: &str) {
     em.comment(&format!("grid world {} {}", world, cell_note));
     for l in SETUP {
-        em.emit_line(l);
+        if world == "noreg" && l.starts_with("hub owner config") {
+            // a deployment that has not registered the validators registry yet (the hub's
+            // `validators_registry_contract` is still unset) and whose rewards dispatcher is a contract that
+            // accepts every message (the airdrop stub): nobody may be let through by default
+            em.emit_line("hub owner config airdrop - bsei stsei airdrop reward -");
+        } else {
+            em.emit_line(l);
+        }
     }
-    if world != "fresh" {
+    if world != "fresh" && world != "noreg" {
         for l in EVOLVE {
             em.emit_line(l);
         }
